@@ -191,7 +191,11 @@ def _undo_probe(w, op, i):
         return
     if kind == "make_trainable" and ref.trainables:
         return
-    m2 = _copy.deepcopy(w.m)
+    try:
+        m2 = _copy.deepcopy(w.m)
+    except Exception:  # noqa: BLE001  (a module that cannot be copied is C18's business; the probe is skipped)
+        w.bump("probe_deepcopy_failed")
+        return
     before = snap.snapshot(m2, with_xyzr=False)
     w2 = World.__new__(World)
     w2.__dict__.update({"shape": w.shape, "m": m2, "ref": w.ref.clone(), "violations": [], "stats": {}, "chain": snap.Chain(), "stopped": None})
